@@ -228,12 +228,61 @@ def _calls_of(st):
     return out
 
 
-def rule_pure(ctx, rule, targets, what="the caller's arrays / datasets are not modified"):
+NUMERIC_RULES = {"C06.args", "C07.args", "C08.args", "C09.args", "C14.pure", "C17.pure", "C18.args", "C19.args"}
+
+
+def rule_pure(ctx, rule, targets, what="the caller's arrays / datasets are not modified", closure=2):
     """targets: [(rel, qualname)]"""
     ctx.rule(rule, "T2 effect (may-alias)", what)
+    if closure:
+        targets = callee_closure(ctx, list(targets), depth=closure)
     for rel, q in targets:
         f = ctx.func(rel, q)
         muts = argument_mutations(f)
         ctx.ob("%s.arguments_unchanged" % q, not muts, "; ".join(m[2] for m in muts[:3]) or "no in-place effect on (views of) the arguments",
                "no in-place operator, element store, out= or mutating method reaches memory of an argument (copy first)",
                node=muts[0][1] if muts else f.node, func=f)
+    if rule in NUMERIC_RULES:
+        # the numerical properties hold for arguments of any dtype: result buffers do not take theirs from an argument
+        from .dtype import rule_float_buffers
+        rule_float_buffers(ctx, rule.split(".")[0] + ".dtype", targets)
+
+
+def callee_closure(ctx, targets, depth=2):
+    """targets plus the typhon functions they call by name (same module, or imported from a typhon module that exists in the tree),
+    followed `depth` levels: a helper that updates its argument in place updates the caller's argument"""
+    import os
+    out = list(targets)
+    seen = set(targets)
+    frontier = list(targets)
+    for _ in range(depth):
+        nxt = []
+        for rel, q in frontier:
+            try:
+                f = ctx.func(rel, q, raw=True)
+            except Exception:
+                continue
+            mod = f.module
+            for c in [n for n in ast.walk(f.node) if isinstance(n, ast.Call)]:
+                cand = None
+                if isinstance(c.func, ast.Name):
+                    nm = c.func.id
+                    if nm in mod.funcs and mod.funcs[nm].cls is None:
+                        cand = (rel, nm)
+                    else:
+                        org = mod.imports.get(nm)
+                        if org and org.startswith("typhon."):
+                            path = org.rsplit(".", 1)[0].replace(".", "/") + ".py"
+                            if os.path.exists(os.path.join(ctx.repo.root, path)):
+                                try:
+                                    m2 = ctx.repo.mod(path)
+                                    if nm in m2.funcs and m2.funcs[nm].cls is None:
+                                        cand = (path, nm)
+                                except Exception:
+                                    cand = None
+                if cand and cand not in seen:
+                    seen.add(cand)
+                    out.append(cand)
+                    nxt.append(cand)
+        frontier = nxt
+    return out
